@@ -57,7 +57,7 @@ BUILDERS = {
     'ParsingState': ['__init__', 'set_fields', 'finalize_state', '_finalize_state_latex_group_delimiters_info',
                      '_finalize_state_latex_math_delim_info', '_finalize_state_inmathmode_info'],
     # building / deriving a database (not called by any parser: scanned below)
-    'LatexContextDb': ['__init__', 'add_context_category', 'set_unknown_macro_spec', 'set_unknown_environment_spec',
+    'LatexContextDb': ['__init__', 'add_context_category', '_add_context_category', 'set_unknown_macro_spec', 'set_unknown_environment_spec',
                        'set_unknown_specials_spec', 'freeze', 'filtered_context'],
 }
 MUTATORS = {'append', 'extend', 'insert', 'update', 'pop', 'popitem', 'remove', 'clear', 'add', 'discard', 'setdefault', 'sort', 'reverse',
